@@ -15,6 +15,7 @@ mod c13;
 mod c14;
 mod c18;
 mod c19;
+mod c20;
 mod dump;
 mod fsops;
 mod fsutil;
@@ -25,6 +26,10 @@ fn main() {
     let args: Vec<String> = std::env::args().collect();
     if args.get(1).map(String::as_str) == Some("c19_child") {
         c19::child();
+        return;
+    }
+    if args.get(1).map(String::as_str) == Some("c20_child") {
+        c20::child();
         return;
     }
     if args.get(1).map(String::as_str) == Some("c12_child") {
@@ -54,6 +59,7 @@ fn main() {
         "c08" => cases.iter().map(c08::run).collect(),
         "c09" => cases.iter().map(c09::run).collect(),
         "c19" => cases.iter().map(c19::run).collect(),
+        "c20" => cases.iter().map(c20::run).collect(),
         "fsops" => cases.iter().map(fsops::run).collect(),
         "c11" => cases.iter().map(c11::run).collect(),
         "c12" => cases.iter().map(c12::run).collect(),
